@@ -104,6 +104,8 @@ PROPERTIES["C16"] = {
             covers_unsat_ok=["signature header with padding", "metadata rejected"]) for t in (32, 40, 48, 49, 56)]
     + [MH("c16_clear_%d_%d" % s, inputs="signature header with %d entries / %d symbolic store bytes" % s, bounds="Header::clear() then offsets vs written bytes", timeout=300)
        for s in ((1, 4), (2, 9), (0, 0), (1, 16))]
+    + [MH("c16_woff_k%d" % k, inputs="package with 2-entry signature header (3 padding bytes), 1-entry main header, 3 payload bytes, contents symbolic", timeout=600,
+          bounds="Package::write into a sink accepting %d byte(s) per call, then get_package_segment_offsets vs the positions in the bytes the sink received" % k) for k in (1, 2, 3, 5)]
     + [H("c16_twin", role="twin", timeout=60)],
     "bounds": "arithmetic: all intro field values with each header below 2^31 bytes; bytes: headers of one entry, store sizes 0..9 (every residue mod 8), payload 0..3 bytes",
     "outside": "headers >= 2^31 bytes (u32 overflow in the sum); the invariant num_entries == index_entries.len() and data_section_size == store.len() that links the arithmetic to real packages is established by parse/from_entries (C01/C09 harnesses) and assumed here",
@@ -381,6 +383,25 @@ PROPERTIES["C12"] = {
     "technique": None,
 }
 
+# ------------------------------------------------------------------------------------------ C11 (MIR engine; partial: in-process reproducibility and clamping)
+PROPERTIES["C11"] = {
+    "harnesses": [MH("c11_repro_" + n, inputs=inp, bounds="PackageBuilder::new .. add_data .. build() .. Package::write, all from MIR; two runs = same inputs under two independent environments", timeout=to, tier=tier,
+                     covers_unsat_ok=["package built", "more than one environment explored"])
+                  for (n, inp, to, tier) in (("root1", "one root-owned file: content byte, mtime, source date symbolic", 600, "quick"),
+                                             ("user1", "one file owned by a:g: content byte, mtime, source date symbolic", 600, "quick"),
+                                             ("user2", "two files owned by a:g and b:h: content bytes, mtimes, source date symbolic", 900, "quick"),
+                                             ("user3", "three files owned by a:g, b:h, c:g", 1800, "quick"),
+                                             ("sym2", "two files whose owner and group names are symbolic lower-case letters (every combination)", 7200, "thorough"))],
+    "bounds": "up to three files with one content byte each; no compression; unsigned build; user/group names literal (quick) or one symbolic letter (thorough); source date, modification times symbolic",
+    "outside": "across processes (the model makes every HashSet iteration order and every clock reading arbitrary, which covers what a fresh process changes for this code, but TZ, working directory and the "
+               "file system are not modelled); signing (real OpenPGP); compressed payloads (FFI); larger configurations",
+    "assumptions": A_MIR + ["environment stub: Timestamp::now returns an arbitrary instant, fresh per call, not earlier than the source date (a source date lies in the past; with a future source date the build time is the clock by design)",
+                            "environment stub: iterating a HashSet/HashMap yields its elements in an arbitrary permutation chosen by the solver, independently per iteration (RandomState)",
+                            "two builds are compared by renaming the environment variables of the second; equality of output bytes is proved by congruence plus solver queries on the sub-terms that contain environment variables; "
+                            "a difference that could only be excluded by reasoning inside a digest function counts as a difference", A_UF],
+    "technique": None,
+}
+
 # ------------------------------------------------------------------------------------------ C13 (MIR -> SMT engine)
 
 
@@ -466,7 +487,6 @@ NOT_APPLICABLE = {
     "C06": "builder -> package -> accessors is a whole-program run through PackageBuilder::prepare_data (cpio + hashing + two HashSets); a fully concrete run did not finish symbolic execution in 14 min; the reachable fragment (records -> bytes -> records) is claimed under C01/C05/C09",
     "C07": "needs the builder, FFI compressors and the cpio writer/reader pair whose thirteen format!/from_str_radix fields kept a 3-byte round trip beyond 15 min of symbolic execution",
     "C10": "every step goes through real OpenPGP packet parsing and public-key cryptography (RSA/EdDSA/ECDSA big-number arithmetic), outside SAT reach; an abstract signer cannot produce packets the real parser accepts",
-    "C11": "nondeterminism comes from RandomState (OS randomness behind FFI); SipHash+hashbrown with a symbolic seed did not finish for a 2-element set; the clamp logic lives inside the unreachable prepare_data; cross-process runs are not expressible",
 }
 
 PROPERTIES["C13"].update(claim="compare_version_string is symbolically executed from its MIR for every pair of ASCII strings up to the stated lengths (all 127 values per byte): "
@@ -502,6 +522,9 @@ PROPERTIES["C02"].update(claim="Package::verify_signature is symbolically execut
 PROPERTIES["C09"].update(claim="Header::from_entries (sorting, offset assignment, alignment, region tag and trailer) is symbolically executed from MIR for every ordered pair of data types and checked by a strict validator "
                          "modelled on rpm's own header verification, plus parse-back of the emitted bytes; Lead::new for names of 0..70 bytes. Whole builder output and the cpio writer are outside reach.", note=_NOTE_MIR)
 
+PROPERTIES["C11"].update(claim="Partial (in-process reproducibility and clamping): the builder itself (new, add_data, build, write) is symbolically executed from MIR with the clock and every hash-set iteration "
+                         "order as arbitrary environment choices: for the listed configurations any two builds of the same inputs produce the same bytes, and BUILDTIME and every file mtime are at most the source date. "
+                         "Signing, compression and cross-process effects other than hash seeds and the clock are outside reach.", note=_NOTE_MIR)
 PROPERTIES["C12"].update(claim="Partial (containment and panic-freedom only): Package::extract is symbolically executed from MIR against a recording file-system stub with the extraction's own symbolic links as state: "
                          "for every directory name / entry path within the bounds, every path handed to a mutating file-system call is below the target, never through or onto a link an earlier entry created, and the call "
                          "returns Ok or Err. That archived content and permission bits arrive on disk is outside reach.", note=_NOTE_MIR)
